@@ -84,3 +84,160 @@ theorem eraseIdx_findIdx_eq_filter {α : Type} (key : α → String) (n : String
       simpa [bne] using this
 
 end Sqlc.Cat
+
+namespace Sqlc.Cat
+
+theorem lastIdx_go_eq {α : Type} (p : α → Bool) :
+    ∀ (l : List α) (i : Nat) (acc : Option Nat), (∀ a ∈ l, p a = false) → lastIdx?.go p l i acc = acc
+  | [], _, _, _ => rfl
+  | a :: as, i, acc, h => by
+    unfold lastIdx?.go
+    have ha := h a (by simp)
+    simp only [ha]
+    exact lastIdx_go_eq p as (i+1) acc (fun x hx => h x (by simp [hx]))
+
+/-- with pairwise distinct keys the last match is the first match -/
+theorem lastIdx_go_eq_findIdx {α : Type} (key : α → String) (n : String) :
+    ∀ (l : List α) (i : Nat), (l.map key).Nodup →
+      lastIdx?.go (fun a => key a == n) l i none = (l.findIdx? (fun a => key a == n)).map (· + i)
+  | [], _, _ => rfl
+  | a :: as, i, h => by
+    simp only [List.map_cons, List.nodup_cons] at h
+    unfold lastIdx?.go
+    by_cases ha : (key a == n) = true
+    · have hk : key a = n := by simpa using ha
+      have hno : ∀ b ∈ as, (key b == n) = false := by
+        intro b hb
+        cases hbn : (key b == n) with
+        | false => rfl
+        | true =>
+          have : key b = n := by simpa using hbn
+          exact absurd (List.mem_map.mpr ⟨b, hb, by rw [this, hk]⟩) h.1
+      simp only [ha, if_true, List.findIdx?_cons]
+      rw [lastIdx_go_eq _ as (i+1) (some i) hno]
+      simp
+    · simp only [Bool.not_eq_true] at ha
+      simp only [ha, List.findIdx?_cons, Bool.false_eq_true, if_false]
+      rw [lastIdx_go_eq_findIdx key n as (i+1) h.2]
+      simp only [Option.map_map]
+      congr 1
+      funext x
+      simp [Nat.add_assoc, Nat.add_comm 1 i]
+
+theorem lastIdx_eq_findIdx {α : Type} (key : α → String) (n : String) (l : List α) (h : (l.map key).Nodup) :
+    lastIdx? (fun a => key a == n) l = l.findIdx? (fun a => key a == n) := by
+  unfold lastIdx?
+  rw [lastIdx_go_eq_findIdx key n l 0 h]
+  simp
+
+theorem findIdx?_isSome_eq_any {α : Type} (p : α → Bool) (l : List α) : (l.findIdx? p).isSome = l.any p := by
+  induction l with
+  | nil => rfl
+  | cons a as ih =>
+    by_cases h : p a = true
+    · simp [List.findIdx?_cons, h]
+    · simp only [Bool.not_eq_true] at h
+      simp [List.findIdx?_cons, h, ih]
+
+theorem findIdx?_none_iff_find?_none {α : Type} (p : α → Bool) (l : List α) :
+    l.findIdx? p = none ↔ l.find? p = none := by
+  constructor
+  · intro h
+    have := findIdx?_isSome_eq_any p l
+    rw [h] at this
+    have h2 := find?_isSome_eq_any p l
+    rw [← this] at h2
+    cases hf : l.find? p with
+    | none => rfl
+    | some x => rw [hf] at h2; simp at h2
+  · intro h
+    have := find?_isSome_eq_any p l
+    rw [h] at this
+    have h2 := findIdx?_isSome_eq_any p l
+    rw [← this] at h2
+    cases hf : l.findIdx? p with
+    | none => rfl
+    | some x => rw [hf] at h2; simp at h2
+
+/-- `modify` at the first match = map-if, under distinct keys, when f keeps what `key`-equality tests -/
+theorem modify_findIdx_eq_map {α : Type} (key : α → String) (n : String) (f : α → α) :
+    ∀ (l : List α) (i : Nat), (l.map key).Nodup → l.findIdx? (fun a => key a == n) = some i →
+      l.modify i f = l.map (fun a => if key a == n then f a else a)
+  | [], _, _, h => by simp at h
+  | a :: as, i, hnd, h => by
+    simp only [List.map_cons, List.nodup_cons] at hnd
+    by_cases ha : (key a == n) = true
+    · have hk : key a = n := by simpa using ha
+      simp [List.findIdx?_cons, ha] at h
+      subst h
+      have hno : ∀ b ∈ as, (key b == n) = false := by
+        intro b hb
+        cases hbn : (key b == n) with
+        | false => rfl
+        | true =>
+          have : key b = n := by simpa using hbn
+          exact absurd (List.mem_map.mpr ⟨b, hb, by rw [this, hk]⟩) hnd.1
+      simp only [List.modify_zero_cons, List.map_cons, ha, if_true]
+      congr 1
+      symm
+      rw [List.map_congr_left (g := id)]
+      · simp
+      · intro b hb; simp [hno b hb]
+    · simp only [Bool.not_eq_true] at ha
+      simp [List.findIdx?_cons, ha] at h
+      obtain ⟨j, hj, rfl⟩ := h
+      simp only [List.modify_succ_cons, List.map_cons, ha]
+      simp
+      have := modify_findIdx_eq_map key n f as j hnd.2 hj
+      simpa using this
+
+end Sqlc.Cat
+
+namespace Sqlc.Cat
+
+/-- with distinct keys, the element `find?` returns is the only one with that key -/
+theorem eq_of_find?_of_key {α : Type} (key : α → String) (n : String) :
+    ∀ (l : List α) (x a : α), (l.map key).Nodup → l.find? (fun a => key a == n) = some x →
+      a ∈ l → (key a == n) = true → a = x
+  | [], _, _, _, h, _, _ => by simp at h
+  | b :: bs, x, a, hnd, h, ha, hk => by
+    simp only [List.map_cons, List.nodup_cons] at hnd
+    by_cases hb : (key b == n) = true
+    · simp [List.find?, hb] at h
+      subst h
+      rcases List.mem_cons.mp ha with rfl | hmem
+      · rfl
+      · have h1 : key a = n := by simpa using hk
+        have h2 : key b = n := by simpa using hb
+        exact absurd (List.mem_map.mpr ⟨a, hmem, by rw [h1, h2]⟩) hnd.1
+    · simp only [Bool.not_eq_true] at hb
+      simp [List.find?, hb] at h
+      rcases List.mem_cons.mp ha with rfl | hmem
+      · rw [hb] at hk; exact absurd hk (by simp)
+      · exact eq_of_find?_of_key key n bs x a hnd.2 h hmem hk
+
+/-- map-if over a key only depends on the function's value at the unique element with that key -/
+theorem map_if_congr_found {α : Type} (key : α → String) (n : String) (g1 g2 : α → α)
+    (l : List α) (x : α) (hnd : (l.map key).Nodup) (hf : l.find? (fun a => key a == n) = some x)
+    (hg : g1 x = g2 x) :
+    l.map (fun a => if key a == n then g1 a else a) = l.map (fun a => if key a == n then g2 a else a) := by
+  apply List.map_congr_left
+  intro a ha
+  by_cases hk : (key a == n) = true
+  · have := eq_of_find?_of_key key n l x a hnd hf ha hk
+    subst this
+    simp [hk, hg]
+  · simp only [Bool.not_eq_true] at hk
+    simp [hk]
+
+theorem map_if_none {α : Type} (key : α → String) (n : String) (g : α → α)
+    (l : List α) (hf : l.find? (fun a => key a == n) = none) :
+    l.map (fun a => if key a == n then g a else a) = l := by
+  rw [List.map_congr_left (g := id)]
+  · simp
+  · intro a ha
+    have := List.find?_eq_none.mp hf a ha
+    simp only [Bool.not_eq_true] at this
+    simp [this]
+
+end Sqlc.Cat
